@@ -13,6 +13,14 @@ Section Safe.
   Lemma tag1 t (e : ev) : Conc.tag t [e] = [(t, e)].
   Proof. reflexivity. Qed.
 
+  (** introduction rule for one access (keeps [safe] of the continuation folded) *)
+  Lemma safe_act {R} t (f : act) (k : V -> prog R) l (Q : R -> view -> Prop) :
+    (forall g a tr, Inv qf g a tr -> aview a t = l ->
+       exists a', Inv qf (fst (fst (f g))) a' (tr ++ Conc.tag t (snd (f g))) /\ Conc.frame aview t a a' /\
+                  safe t (k (snd (fst (f g)))) (aview a' t) Q) ->
+    safe t (Act f k) l Q.
+  Proof. intros H. exact H. Qed.
+
   (** an access that leaves the core state and the view alone *)
   Definition silent_act (t : nat) (f : act) : Prop :=
     forall g, same_core g (fst (fst (f g))) /\
@@ -25,7 +33,7 @@ Section Safe.
     (forall v, safe t (k v) l Q) ->
     safe t (Act f k) l Q.
   Proof.
-    intros Hs Hhp Hk. cbn [Conc.safe]. intros g a tr HI Hv. unfold aview in Hv.
+    intros Hs Hhp Hk. apply safe_act. intros g a tr HI Hv. unfold aview in Hv.
     destruct (Hs g) as (Hc & Ho & kd & o & b & He).
     exists (upd a t (a t)). split; [|split; [apply frame_upd|]].
     - rewrite He, tag1. apply (Inv_silent qf g); auto. destruct Hhp as [H|H]; [left; apply H|right; now rewrite Hv].
@@ -80,7 +88,7 @@ Section Safe.
     safe t (lock_inner fuel) (mkV false idx None ph) (Qlock idx ph).
   Proof.
     induction fuel as [|f IH]; intros t idx ph; split; cbn [lock_outer lock_inner]; try exact I.
-    - cbn [Conc.safe]. intros g a tr HI Hv. unfold aview in Hv. cbn [a_lock_xchg fst snd]. rewrite tag1.
+    - apply safe_act. intros g a tr HI Hv. unfold aview in Hv. cbn [a_lock_xchg fst snd]. rewrite tag1.
       destruct (lockw g) eqn:Hw.
       + exists (upd a t (a t)). split; [|split; [apply frame_upd|]].
         * apply (Inv_silent qf g); auto.
@@ -108,7 +116,7 @@ Section Safe.
     (forall p, safe t (k (VS p)) (mkV hd idx lk (PEnq x lb p [] false)) Q) ->
     safe t (Act a_ld_tail k) (mkV hd idx lk (PEnq x lb sg vis false)) Q.
   Proof.
-    intros Hk. cbn [Conc.safe]. intros g a tr HI Hv. unfold aview in Hv. cbn [a_ld_tail fst snd]. rewrite tag1.
+    intros Hk. apply safe_act. intros g a tr HI Hv. unfold aview in Hv. cbn [a_ld_tail fst snd]. rewrite tag1.
     exists (upd a t (mkV hd idx lk (PEnq x lb (tailp g) [] false))). split; [|split; [apply frame_upd|]].
     - pose proof (Inv_view qf g a tr t g KLd obj_tail true (PEnq x lb (tailp g) [] false) HI) as K.
       use_view K Hv. apply K; clear K.
@@ -146,7 +154,7 @@ Section Safe.
     (forall v, safe t (k v) (mkV false idx None ph) Q) ->
     safe t (Act a_unlock k) (mkV hd idx (Some ln) ph) Q.
   Proof.
-    intros Hk. cbn [Conc.safe]. intros g a tr HI Hv. unfold aview in Hv. cbn [a_unlock fst snd]. rewrite tag1.
+    intros Hk. apply safe_act. intros g a tr HI Hv. unfold aview in Hv. cbn [a_unlock fst snd]. rewrite tag1.
     exists (upd a t (mkV false idx None ph)). split; [|split; [apply frame_upd|]].
     - pose proof (Inv_lock_step qf g a tr t false None KSt HI) as K. use_view K Hv. apply K.
       + discriminate.
@@ -160,7 +168,7 @@ Section Safe.
     safe t (init_cells n idxs k) (mkV hd idx (Some (l, n)) ph) Q.
   Proof.
     induction idxs as [|i r IH]; intros Hk; cbn [init_cells]; [exact Hk|].
-    cbn [Conc.safe]. intros g a tr HI Hv. unfold aview in Hv. cbn [a_init_cell fst snd]. rewrite tag1.
+    apply safe_act. intros g a tr HI Hv. unfold aview in Hv. cbn [a_init_cell fst snd]. rewrite tag1.
     exists (upd a t (a t)). split; [|split; [apply frame_upd|]].
     - apply (Inv_silent qf g); auto.
       repeat split; auto. intros s' i'. cell_cases g n i null_cell s' i' E; rewrite E; [|reflexivity].
@@ -184,7 +192,7 @@ Section Safe.
     (forall v, safe t (k v) (mkV hd idx (Some (l, n)) ph) Q) ->
     safe t (Act (a_st_tail (Some b)) k) (mkV hd idx (Some (l, n)) ph) Q.
   Proof.
-    intros Hb Hk. cbn [Conc.safe]. intros g a tr HI Hv. unfold aview in Hv. cbn [a_st_tail fst snd]. rewrite tag1.
+    intros Hb Hk. apply safe_act. intros g a tr HI Hv. unfold aview in Hv. cbn [a_st_tail fst snd]. rewrite tag1.
     destruct (lock_facts _ _ _ _ _ _ _ _ _ HI Hv) as (_ & El & En).
     exists (upd a t (a t)). split; [|split; [apply frame_upd|]].
     - apply Inv_st_tail; auto. intros s E. inversion E; subst s.
@@ -198,7 +206,7 @@ Section Safe.
     safe t k (mkV hd idx (Some (l, n)) (PEnq x lb (Some b) [] false)) Q ->
     safe t (assign_seg t 0 b k) (mkV hd idx (Some (l, n)) (PEnq x lb sg vis false)) Q.
   Proof.
-    intros Hb Hk. unfold assign_seg. cbn [Conc.safe]. intros g a tr HI Hv. unfold aview in Hv. cbn [a_st_hp fst snd]. rewrite tag1.
+    intros Hb Hk. unfold assign_seg. apply safe_act. intros g a tr HI Hv. unfold aview in Hv. cbn [a_st_hp fst snd]. rewrite tag1.
     destruct (lock_facts _ _ _ _ _ _ _ _ _ HI Hv) as (_ & El & En).
     exists (upd a t (mkV hd idx (Some (l, n)) (PEnq x lb (Some b) [] false))). split; [|split; [apply frame_upd|]].
     - pose proof (Inv_view qf g a tr t (set_hp g t 0 (HSeg b)) KSt (obj_hp t 0) true (PEnq x lb (Some b) [] false) HI) as K.
@@ -215,10 +223,16 @@ Section Safe.
     - rewrite aview_upd_same. apply safe_faa_sync. intros _. exact Hk.
   Qed.
 
+  Lemma last_in (l : list nat) d : l <> [] -> In (last l d) l.
+  Proof.
+    induction l as [|y r IH]; [congruence|]. intros _. destruct r as [|z r']; [left; reflexivity|].
+    right. apply IH. discriminate.
+  Qed.
+
   Lemma last_opt_in l b : last_opt l = Some b -> In b l.
   Proof.
-    unfold last_opt. destruct l as [|y r]; [discriminate|]. intros E. inversion E.
-    destruct (exists_last (l := y :: r)) as (l' & z & ->); [discriminate|]. rewrite last_last. apply in_app_iff. right. left. reflexivity.
+    unfold last_opt. destruct l as [|y r]; [discriminate|]. intros E.
+    assert (E' : last (y :: r) 0 = b) by congruence. rewrite <- E'. apply last_in. discriminate.
   Qed.
 
   (** create_tail, first segment: m_pHead.store( pNew ) *)
@@ -226,7 +240,7 @@ Section Safe.
     (forall v, safe t (k v) (mkV true idx (Some ([], n)) ph) Q) ->
     safe t (Act (a_st_head (Some n)) k) (mkV false idx (Some ([], n)) ph) Q.
   Proof.
-    intros Hk. cbn [Conc.safe]. intros g a tr HI Hv. unfold aview in Hv. cbn [a_st_head fst snd]. rewrite tag1.
+    intros Hk. apply safe_act. intros g a tr HI Hv. unfold aview in Hv. cbn [a_st_head fst snd]. rewrite tag1.
     destruct (lock_facts _ _ _ _ _ _ _ _ _ HI Hv) as (_ & El & En).
     exists (upd a t (mkV true idx (Some ([], n)) ph)). split; [|split; [apply frame_upd|]].
     - pose proof (Inv_st_head qf g a tr t (Some n) true HI) as K. use_view K Hv. apply K.
@@ -244,7 +258,7 @@ Section Safe.
     (forall v, safe t (k v) (mkV false idx (Some (l ++ [n], S n)) (PEnq x lb (Some n) [] false)) Q) ->
     safe t (Act (a_push_st_tail n) k) (mkV hd idx (Some (l, n)) (PEnq x lb sg vis false)) Q.
   Proof.
-    intros Hhd Hor Hk. cbn [Conc.safe]. intros g a tr HI Hv. unfold aview in Hv. cbn [a_push_st_tail fst snd]. rewrite tag1.
+    intros Hhd Hor Hk. apply safe_act. intros g a tr HI Hv. unfold aview in Hv. cbn [a_push_st_tail fst snd]. rewrite tag1.
     destruct (lock_facts _ _ _ _ _ _ _ _ _ HI Hv) as (_ & El & En).
     exists (upd a t (mkV false idx (Some (l ++ [n], S n)) (PEnq x lb (Some n) [] false))). split; [|split; [apply frame_upd|]].
     - pose proof (Inv_push qf g a tr t x lb sg vis l n HI) as K. use_view K Hv. apply K; auto.
@@ -280,11 +294,333 @@ Section Safe.
       - apply Hfresh; auto. discriminate. }
     destruct (last_opt l) as [b|] eqn:Hl.
     - destruct (optnat_eqb pTail (Some b)) eqn:Hp; cbn [negb].
-      + apply Hfresh2. right. apply optnat_eqb_eq in Hp. destruct Hor as [->|(E & C)]; [discriminate|].
-        subst pTail. rewrite <- E. split; [discriminate|]. split; [reflexivity|exact C].
+      + apply Hfresh2. right. apply optnat_eqb_eq in Hp. destruct Hor as [H0|(E & C)]; [congruence|].
+        assert (Es : sg = Some b) by congruence. rewrite Es. split; [discriminate|]. split; [reflexivity|exact C].
       + apply safe_st_tail_back; [exact Hl|]. intros _.
         eapply safe_assign_back; [apply last_opt_in; exact Hl|].
         apply safe_unlock. intros _. reflexivity.
     - apply Hfresh2. left. destruct l; [reflexivity|discriminate].
+  Qed.
+
+  Lemma PH_enq_vis g tr t idx x lb s vis i :
+    PH g tr t idx (PEnq x lb (Some s) vis false) -> cptr g s i <> None ->
+    PH g tr t idx (PEnq x lb (Some s) (i :: vis) false).
+  Proof.
+    cbn. intros (P1 & P2 & P3 & P4 & P5 & P6 & P7) H. repeat split; auto.
+    intros s0 i0 E [<-|Hin]; [inversion E; subst; exact H|eauto].
+  Qed.
+
+  Definition enq_view idx x lb s vis ins : view := mkV false idx None (PEnq x lb (Some s) vis ins).
+
+  (** probing a cell of the tail segment *)
+  Lemma safe_ld_cell_enq {R} t idx x lb s vis i (k : V -> prog R) Q :
+    (forall c, (fst c = None -> snd c = false) ->
+       safe t (k (VC c)) (enq_view idx x lb s (match fst c with None => vis | Some _ => i :: vis end) false) Q) ->
+    safe t (Act (a_ld_cell s i) k) (enq_view idx x lb s vis false) Q.
+  Proof.
+    intros Hk. apply safe_act. intros g a tr HI Hv. unfold aview, enq_view in Hv. cbn [a_ld_cell fst snd]. rewrite tag1.
+    set (vis' := match fst (cells g s i) with None => vis | Some _ => i :: vis end).
+    exists (upd a t (enq_view idx x lb s vis' false)). split; [|split; [apply frame_upd|]].
+    - pose proof (Inv_view qf g a tr t g KLd (obj_cell s i) true (PEnq x lb (Some s) vis' false) HI) as K.
+      use_view K Hv. apply K; clear K.
+      + repeat split; auto.
+      + auto.
+      + discriminate.
+      + pose proof (PH_own_acc qf g a tr t g KLd (obj_cell s i) true HI) as P. use_view P Hv.
+        specialize (P ltac:(repeat split; auto) ltac:(discriminate)).
+        unfold vis'. destruct (fst (cells g s i)) eqn:E; [|exact P].
+        apply PH_enq_vis; [exact P|]. unfold cptr. rewrite E. discriminate.
+      + apply taker_iff_ph; [discriminate|cbn; discriminate].
+    - rewrite aview_upd_same. apply Hk.
+      pose proof (si_wf _ _ (inv_si _ _ _ _ HI) s i) as W. exact W.
+  Qed.
+
+  Definition Qprobe idx x lb s (all : list nat) : bool -> view -> Prop :=
+    fun done vw => exists vis', vw = enq_view idx x lb s vis' done /\ (done = false -> forall i, In i all -> In i vis').
+
+  Lemma safe_enq_probe t idx x lb s all : forall ord vis,
+    (forall i, In i ord -> i < qf) ->
+    (forall i, In i all -> In i vis \/ In i ord) ->
+    safe t (enq_probe s x ord) (enq_view idx x lb s vis false) (Qprobe idx x lb s all).
+  Proof.
+    induction ord as [|i r IH]; intros vis Hlt Hall; cbn [enq_probe].
+    - cbn. exists vis. split; [reflexivity|]. intros _ j Hj. destruct (Hall j Hj) as [K|[]]; exact K.
+    - apply safe_ld_cell_enq. intros c Hwf. cbn [cell_of].
+      assert (Hr : forall vis', (forall j, In j vis \/ j = i -> In j vis') ->
+                 safe t (enq_probe s x r) (enq_view idx x lb s vis' false) (Qprobe idx x lb s all)).
+      { intros vis' Hsub. apply IH; [intros j Hj; apply Hlt; right; exact Hj|].
+        intros j Hj. destruct (Hall j Hj) as [K|[K|K]]; [left; apply Hsub; auto|left; apply Hsub; auto|right; exact K]. }
+      destruct c as [[y|] m]; cbn [fst snd] in *.
+      + apply Hr. intros j [K| ->]; [right; exact K|left; reflexivity].
+      + rewrite (Hwf eq_refl).
+        (* the cell looked empty: CAS *)
+        apply safe_act. intros g a tr HI Hv. unfold aview, enq_view in Hv. unfold a_cas_cell.
+        destruct (cell_eqb (cells g s i) null_cell) eqn:Hc; cbn [fst snd]; rewrite tag1.
+        * apply cell_eqb_eq in Hc.
+          exists (upd a t (enq_view idx x lb s vis true)). split; [|split; [apply frame_upd|]].
+          -- pose proof (Inv_insert qf g a tr t s i x lb vis HI) as K. use_view K Hv. apply K; auto.
+             apply Hlt. left. reflexivity.
+          -- rewrite aview_upd_same. cbn. exists vis. split; [reflexivity|discriminate].
+        * exists (upd a t (enq_view idx x lb s (i :: vis) false)). split; [|split; [apply frame_upd|]].
+          -- pose proof (Inv_view qf g a tr t g KCas (obj_cell s i) false (PEnq x lb (Some s) (i :: vis) false) HI) as K.
+             use_view K Hv. apply K; clear K.
+             ++ repeat split; auto.
+             ++ auto.
+             ++ discriminate.
+             ++ pose proof (PH_own_acc qf g a tr t g KCas (obj_cell s i) false HI) as P. use_view P Hv.
+                specialize (P ltac:(repeat split; auto) ltac:(discriminate)).
+                apply PH_enq_vis; [exact P|]. intros E.
+                pose proof (si_wf _ _ (inv_si _ _ _ _ HI) s i E) as W. unfold cptr, cmark in *.
+                destruct (cells g s i) as [p m']. cbn in *. subst. cbn in Hc. discriminate.
+             ++ apply taker_iff_ph; [discriminate|cbn; discriminate].
+          -- rewrite aview_upd_same. cbn [ok_of]. apply Hr. intros j [K| ->]; [right; exact K|left; reflexivity].
+  Qed.
+
+  (** the probing order of a round enumerates exactly the cells of a segment *)
+  Definition perm_ok (l : list nat) : Prop := forall i, In i l <-> i < qf.
+
+  Definition Qenq idx x lb : bool -> view -> Prop :=
+    fun done vw => done = true -> exists s vis, vw = enq_view idx x lb s vis true.
+
+  Lemma safe_enq_rounds lfuel t idx x lb ord :
+    (forall r, perm_ok (ord r)) ->
+    forall fuel r s,
+    safe t (enq_rounds fuel lfuel qf t x ord r s) (enq_view idx x lb s [] false) (Qenq idx x lb).
+  Proof.
+    intros Hord. induction fuel as [|f IH]; intros r s; cbn [enq_rounds]; [discriminate|].
+    apply Conc.safe_bind. eapply Conc.safe_weaken; [|apply (safe_enq_probe t idx x lb s (ord r))].
+    - intros [|] vw (vis' & -> & Hc); cbn beta iota.
+      + intros _. eauto.
+      + apply Conc.safe_bind. eapply Conc.safe_weaken; [|apply (safe_create_tail lfuel t idx x lb (Some s) vis' (Some s))].
+        * intros [s'|] vw Hq; cbn in Hq; [subst vw; apply IH|discriminate].
+        * right. split; [reflexivity|]. intros i Hi. apply Hc; [reflexivity|]. apply (proj2 (Hord r i)). exact Hi.
+    - intros i Hi. apply (proj1 (Hord r i)). exact Hi.
+    - intros i Hi. right. exact Hi.
+  Qed.
+
+  Lemma safe_faa_cnt {R} t (k : V -> prog R) l Q :
+    (forall v, safe t (k v) l Q) -> safe t (Act a_faa_cnt k) l Q.
+  Proof. intros H. apply safe_silent; auto using silent_faa_cnt. Qed.
+
+  Lemma safe_enqueue fuel t idx x lb ord :
+    (forall r, perm_ok (ord r)) ->
+    safe t (enqueue fuel qf t x ord) (mkV false idx None (PEnq x lb None [] false)) (Qenq idx x lb).
+  Proof.
+    intros Hord. unfold enqueue. apply Conc.safe_bind.
+    eapply Conc.safe_weaken; [|apply safe_protect_tail].
+    intros [p0|] vw Hq; cbn in Hq; [subst vw|discriminate].
+    apply Conc.safe_bind.
+    assert (Hrest : forall s, safe t
+       (Act a_faa_cnt (fun _ => bind (enq_rounds fuel fuel qf t x ord 0 s)
+          (fun done => if done then Act (a_st_hp t 0 HNull) (fun _ => Ret true) else Ret false)))
+       (enq_view idx x lb s [] false) (Qenq idx x lb)).
+    { intros s. apply safe_faa_cnt. intros _. apply Conc.safe_bind.
+      eapply Conc.safe_weaken; [|apply safe_enq_rounds; exact Hord].
+      intros [|] vw Hq; [|discriminate]. destruct (Hq eq_refl) as (s' & vis & ->).
+      apply safe_st_hp_free; [exact I|]. intros _. cbn. intros _. eauto. }
+    destruct p0 as [s|].
+    - cbn. apply Hrest.
+    - eapply Conc.safe_weaken; [|apply (safe_create_tail fuel t idx x lb None [] None); left; reflexivity].
+      intros [s|] vw Hq; cbn in Hq; [subst vw; apply Hrest|discriminate].
+  Qed.
+
+  (** ** dequeue *)
+  Definition deq_view idx Sn sg vis hn emp hp0 cur : view := mkV false idx None (PDeq Sn sg vis hn emp hp0 cur).
+
+  (** starting the scan of another segment (or learning that there is none) *)
+  Lemma PH_deq_reset g tr t idx Sn sg vis hn emp hp0 cur sg' emp' :
+    PH g tr t idx (PDeq Sn sg vis hn emp hp0 cur) ->
+    (forall s, sg' = Some s -> s <= lo g) ->
+    (emp' = true -> emp = true \/ forall y, Sn y -> marked g y) ->
+    PH g tr t idx (PDeq Sn sg' [] false emp' hp0 None).
+  Proof.
+    cbn. intros (P1 & P2 & P3 & P4 & P5 & P6 & P7 & P8 & P9) H1 H2.
+    split; [exact P1|]. split; [exact P2|]. split; [exact P3|]. split; [exact H1|].
+    split; [intros s i _ []|]. split; [discriminate|]. split; [|split; [exact P8|discriminate]].
+    intros E. destruct (H2 E) as [K|K]; auto.
+  Qed.
+
+  Lemma PH_deq_hp0 g tr t idx Sn sg vis hn emp hp0 cur : 
+    PH g tr t idx (PDeq Sn sg vis hn emp hp0 cur) -> hp g t 0 = hp0.
+  Proof. cbn. tauto. Qed.
+
+  Definition is_none (p : option nat) : bool := match p with None => true | _ => false end.
+
+  Lemma deq_own g a tr t g' k o b idx lk hd Sn sg vis hn emp hp0 cur :
+    Inv qf g a tr -> a t = mkV hd idx lk (PDeq Sn sg vis hn emp hp0 cur) -> same_core g g' ->
+    PH g' (tr ++ [(t, EvAcc k o b)]) t idx (PDeq Sn sg vis hn emp (hp g' t 0) cur).
+  Proof.
+    intros HI Hv Hc. pose proof (PH_own_acc qf g a tr t g' k o b HI Hc) as P. rewrite Hv in P. cbn [v_idx v_ph set_hp0] in P.
+    apply P. discriminate.
+  Qed.
+
+  Lemma safe_ld_head {R} t idx Sn sg vis hn emp hp0 cur (k : V -> prog R) Q :
+    (forall p, safe t (k (VS p)) (deq_view idx Sn p [] false (emp || is_none p) hp0 None) Q) ->
+    safe t (Act a_ld_head k) (deq_view idx Sn sg vis hn emp hp0 cur) Q.
+  Proof.
+    intros Hk. apply safe_act. intros g a tr HI Hv. unfold aview, deq_view in Hv. cbn [a_ld_head fst snd]. rewrite tag1.
+    exists (upd a t (deq_view idx Sn (headp g) [] false (emp || is_none (headp g)) hp0 None)). split; [|split; [apply frame_upd|]].
+    - pose proof (Inv_view qf g a tr t g KLd obj_head true (PDeq Sn (headp g) [] false (emp || is_none (headp g)) hp0 None) HI) as K.
+      use_view K Hv. apply K; clear K.
+      + repeat split; auto.
+      + auto.
+      + discriminate.
+      + pose proof (deq_own g a tr t g KLd obj_head true _ _ _ _ _ _ _ _ _ _ HI Hv ltac:(repeat split; auto)) as P.
+        pose proof (vi_ph _ _ _ _ (inv_vi _ _ _ _ HI t)) as P0. rewrite Hv in P0. rewrite (PH_deq_hp0 _ _ _ _ _ _ _ _ _ _ _ P0) in P.
+        eapply PH_deq_reset; [exact P| |].
+        * apply (si_head _ _ (inv_si _ _ _ _ HI)).
+        * intros E. apply orb_true_iff in E. destruct E as [E|E]; [left; exact E|right].
+          destruct (headp g) eqn:Eh; [discriminate|].
+          pose proof (si_head0 _ _ (inv_si _ _ _ _ HI) Eh) as El. intros y Hy.
+          eapply all_marked_when_empty; [apply (inv_si _ _ _ _ HI)|exact El|].
+          cbn in P0. destruct P0 as (_ & _ & S2 & _). auto.
+      + apply taker_iff_ph; [discriminate|cbn; discriminate].
+    - rewrite aview_upd_same. apply Hk.
+  Qed.
+
+  Definition Qprot_deq idx Sn hp0 : option (option nat) -> view -> Prop :=
+    fun r vw => match r with None => True
+                | Some p => exists emp, vw = deq_view idx Sn p [] false emp hp0 None /\ (p = None -> emp = true) end.
+
+  Lemma safe_protect_head_loop fuel t idx Sn hp0 : forall pcur sg emp,
+    safe t (protect_loop fuel a_ld_head t 1 pcur) (deq_view idx Sn sg [] false emp hp0 None) (Qprot_deq idx Sn hp0).
+  Proof.
+    induction fuel as [|f IH]; intros pcur sg emp; cbn [protect_loop]; [exact I|].
+    apply safe_st_hp1. intros _. apply safe_faa_sync. intros _.
+    apply safe_ld_head. intros p. cbn [seg_of]. destruct (optnat_eqb pcur p); [|apply IH].
+    cbn. eexists. split; [reflexivity|]. intros ->. apply orb_true_r.
+  Qed.
+
+  Lemma safe_protect_head fuel t idx Sn sg vis hn emp hp0 cur :
+    safe t (protect fuel a_ld_head t 1) (deq_view idx Sn sg vis hn emp hp0 cur) (Qprot_deq idx Sn hp0).
+  Proof. unfold protect. apply safe_ld_head. intros p. apply safe_protect_head_loop. Qed.
+
+  Definition scan_after (idx : nat) Sn s vis hn emp hp0 i (c : cell) : view :=
+    match c with
+    | (None, _) => deq_view idx Sn (Some s) (i :: vis) true emp hp0 None
+    | (Some y, true) => deq_view idx Sn (Some s) (i :: vis) hn emp hp0 None
+    | (Some y, false) => deq_view idx Sn (Some s) vis hn emp hp0 (Some (i, y))
+    end.
+
+  Lemma PH_deq_load g tr t idx Sn s vis hn emp hp0 cur i :
+    SI qf g -> i < qf ->
+    PH g tr t idx (PDeq Sn (Some s) vis hn emp hp0 cur) ->
+    PH g tr t idx (v_ph (scan_after idx Sn s vis hn emp hp0 i (cells g s i))).
+  Proof.
+    intros HS Hi. cbn [PH]. intros (P1 & P2 & P3 & P4 & P5 & P6 & P7 & P8 & P9).
+    destruct (cells g s i) as [[y|] m] eqn:C; [destruct m|]; cbn [scan_after deq_view v_ph PH].
+    - split; [exact P1|]. split; [exact P2|]. split; [exact P3|]. split; [exact P4|]. split.
+      { intros s0 i0 E [<-|Hin]; [|eauto]. inversion E; subst. left. unfold cmark. now rewrite C. }
+      split; [exact P6|]. split; [exact P7|]. split; [exact P8|discriminate].
+    - split; [exact P1|]. split; [exact P2|]. split; [exact P3|]. split; [exact P4|]. split; [exact P5|].
+      split; [exact P6|]. split; [exact P7|]. split; [exact P8|].
+      intros i0 x0 s0 E1 E2. inversion E1; inversion E2; subst. unfold cptr. now rewrite C.
+    - split; [exact P1|]. split; [exact P2|]. split; [exact P3|]. split; [exact P4|]. split.
+      { intros s0 i0 E [<-|Hin].
+        - inversion E; subst. right. split; [reflexivity|]. intros y _. unfold cptr. rewrite C. discriminate.
+        - destruct (P5 s0 i0 E Hin) as [K|[K1 K2]]; [left; exact K|right; split; [reflexivity|exact K2]]. }
+      split.
+      { intros _ s0 E y s' i' Hy K. inversion E; subst s0.
+        destruct (si_range _ _ HS s' i') as (L & _); [rewrite K; discriminate|].
+        destruct (Nat.le_gt_cases s' s) as [Le|Gt]; [exact Le|exfalso].
+        apply (si_full _ _ HS s i); [lia|exact Hi|]. unfold cptr. now rewrite C. }
+      split; [exact P7|]. split; [exact P8|discriminate].
+  Qed.
+
+  Lemma safe_ld_cell_deq {R} t idx Sn s vis hn emp hp0 cur i (k : V -> prog R) Q :
+    i < qf ->
+    (forall c, (fst c = None -> snd c = false) -> safe t (k (VC c)) (scan_after idx Sn s vis hn emp hp0 i c) Q) ->
+    safe t (Act (a_ld_cell s i) k) (deq_view idx Sn (Some s) vis hn emp hp0 cur) Q.
+  Proof.
+    intros Hi Hk. apply safe_act. intros g a tr HI Hv. unfold aview, deq_view in Hv. cbn [a_ld_cell fst snd]. rewrite tag1.
+    exists (upd a t (scan_after idx Sn s vis hn emp hp0 i (cells g s i))). split; [|split; [apply frame_upd|]].
+    - pose proof (Inv_view qf g a tr t g KLd (obj_cell s i) true (v_ph (scan_after idx Sn s vis hn emp hp0 i (cells g s i))) HI) as K.
+      use_view K Hv.
+      replace (scan_after idx Sn s vis hn emp hp0 i (cells g s i))
+        with (mkV false idx None (v_ph (scan_after idx Sn s vis hn emp hp0 i (cells g s i))))
+        by (destruct (cells g s i) as [[y|] [|]]; reflexivity).
+      apply K; clear K.
+      + repeat split; auto.
+      + auto.
+      + destruct (cells g s i) as [[y|] [|]]; discriminate.
+      + pose proof (deq_own g a tr t g KLd (obj_cell s i) true _ _ _ _ _ _ _ _ _ _ HI Hv ltac:(repeat split; auto)) as P.
+        pose proof (vi_ph _ _ _ _ (inv_vi _ _ _ _ HI t)) as P0. rewrite Hv in P0. rewrite (PH_deq_hp0 _ _ _ _ _ _ _ _ _ _ _ P0) in P.
+        eapply PH_deq_load; [apply (inv_si _ _ _ _ HI)|exact Hi|exact P].
+      + apply taker_iff_ph; [destruct (cells g s i) as [[y|] [|]]; discriminate|cbn; discriminate].
+    - rewrite aview_upd_same. apply Hk. apply (si_wf _ _ (inv_si _ _ _ _ HI) s i).
+  Qed.
+
+  (** itemGuard.assign: slot 0 of a dequeuer *)
+  Lemma safe_st_hp0_deq {R} t idx Sn sg vis hn emp hp0 cur h (k : V -> prog R) Q :
+    (forall v, safe t (k v) (deq_view idx Sn sg vis hn emp h cur) Q) ->
+    safe t (Act (a_st_hp t 0 h) k) (deq_view idx Sn sg vis hn emp hp0 cur) Q.
+  Proof.
+    intros Hk. apply safe_act. intros g a tr HI Hv. unfold aview, deq_view in Hv. cbn [a_st_hp fst snd]. rewrite tag1.
+    exists (upd a t (deq_view idx Sn sg vis hn emp h cur)). split; [|split; [apply frame_upd|]].
+    - pose proof (Inv_view qf g a tr t (set_hp g t 0 h) KSt (obj_hp t 0) true (PDeq Sn sg vis hn emp h cur) HI) as K.
+      use_view K Hv. apply K; clear K.
+      + repeat split; auto.
+      + intros t' N. cbn. destruct (Nat.eqb_spec t' t); [contradiction|reflexivity].
+      + discriminate.
+      + pose proof (deq_own g a tr t (set_hp g t 0 h) KSt (obj_hp t 0) true _ _ _ _ _ _ _ _ _ _ HI Hv ltac:(repeat split; auto)) as P.
+        cbn [hp set_hp] in P. rewrite !Nat.eqb_refl in P. exact P.
+      + apply taker_iff_ph; [discriminate|cbn; discriminate].
+    - rewrite aview_upd_same. apply Hk.
+  Qed.
+
+  Lemma PH_deq_casfail g tr t idx Sn s vis hn emp hp0 i y :
+    PH g tr t idx (PDeq Sn (Some s) vis hn emp hp0 (Some (i, y))) ->
+    cells g s i <> (Some y, false) ->
+    PH g tr t idx (PDeq Sn (Some s) (i :: vis) hn emp hp0 None).
+  Proof.
+    cbn [PH]. intros (P1 & P2 & P3 & P4 & P5 & P6 & P7 & P8 & P9) N.
+    split; [exact P1|]. split; [exact P2|]. split; [exact P3|]. split; [exact P4|]. split.
+    { intros s0 i0 E [<-|Hin]; [|eauto]. inversion E; subst s0. left.
+      pose proof (P9 i y s eq_refl eq_refl) as K. unfold cptr, cmark in *.
+      destruct (cells g s i) as [p m]. cbn in *. subst p. destruct m; [reflexivity|congruence]. }
+    split; [exact P6|]. split; [exact P7|]. split; [exact P8|discriminate].
+  Qed.
+
+  Definition Qscan idx Sn s emp (all : list nat) : scan_res -> view -> Prop :=
+    fun r vw => match r with
+      | SGot x => vw = mkV false idx None (PGot x false)
+      | SNone hn' => exists vis' hp0', vw = deq_view idx Sn (Some s) vis' hn' emp hp0' None /\ (forall i, In i all -> In i vis')
+      end.
+
+  Lemma safe_deq_scan t idx Sn s emp all : forall ord vis hn hp0,
+    (forall i, In i ord -> i < qf) ->
+    (forall i, In i all -> In i vis \/ In i ord) ->
+    safe t (deq_scan t s ord hn) (deq_view idx Sn (Some s) vis hn emp hp0 None) (Qscan idx Sn s emp all).
+  Proof.
+    induction ord as [|i r IH]; intros vis hn hp0 Hlt Hall; cbn [deq_scan].
+    - cbn. exists vis, hp0. split; [reflexivity|]. intros j Hj. destruct (Hall j Hj) as [K|[]]; exact K.
+    - assert (Hr : forall hn' hp0', safe t (deq_scan t s r hn') (deq_view idx Sn (Some s) (i :: vis) hn' emp hp0' None) (Qscan idx Sn s emp all)).
+      { intros hn' hp0'. apply IH; [intros j Hj; apply Hlt; right; exact Hj|].
+        intros j Hj. destruct (Hall j Hj) as [K|[K|K]]; [left; right; exact K|left; left; exact K|right; exact K]. }
+      apply safe_ld_cell_deq; [apply Hlt; left; reflexivity|]. intros c Hwf. cbn [cell_of].
+      destruct c as [[y|] m]; cbn [fst snd] in *.
+      + destruct m; cbn [scan_after].
+        * apply safe_st_hp0_deq. intros _. apply safe_faa_sync. intros _. apply Hr.
+        * apply safe_st_hp0_deq. intros _. apply safe_faa_sync. intros _.
+          apply safe_act. intros g a tr HI Hv. unfold aview, deq_view in Hv. unfold a_cas_cell.
+          destruct (cell_eqb (cells g s i) (Some y, false)) eqn:Hc; cbn [fst snd]; rewrite tag1.
+          -- apply cell_eqb_eq in Hc.
+             exists (upd a t (mkV false idx None (PGot y false))). split; [|split; [apply frame_upd|]].
+             ++ pose proof (Inv_mark qf g a tr t s i y Sn vis hn emp (Some (i, y)) HI) as K. use_view K Hv. apply K; auto.
+             ++ rewrite aview_upd_same. cbn. reflexivity.
+          -- exists (upd a t (deq_view idx Sn (Some s) (i :: vis) hn emp (hitem (Some y)) None)). split; [|split; [apply frame_upd|]].
+             ++ pose proof (Inv_view qf g a tr t g KCas (obj_cell s i) false (PDeq Sn (Some s) (i :: vis) hn emp (hitem (Some y)) None) HI) as K.
+                use_view K Hv. apply K; clear K.
+                ** repeat split; auto.
+                ** auto.
+                ** discriminate.
+                ** pose proof (deq_own g a tr t g KCas (obj_cell s i) false _ _ _ _ _ _ _ _ _ _ HI Hv ltac:(repeat split; auto)) as P.
+                   pose proof (vi_ph _ _ _ _ (inv_vi _ _ _ _ HI t)) as P0. rewrite Hv in P0. rewrite (PH_deq_hp0 _ _ _ _ _ _ _ _ _ _ _ P0) in P.
+                   eapply PH_deq_casfail; [exact P|]. intros E. rewrite E in Hc.
+                   assert (cell_eqb (Some y, false) (Some y, false) = true) by (apply cell_eqb_eq; reflexivity). congruence.
+                ** apply taker_iff_ph; [discriminate|cbn; discriminate].
+             ++ rewrite aview_upd_same. cbn [ok_of]. apply Hr.
+      + rewrite (Hwf eq_refl). cbn [scan_after].
+        apply safe_st_hp0_deq. intros _. apply safe_faa_sync. intros _. apply Hr.
   Qed.
 End Safe.
